@@ -223,7 +223,7 @@ func c06Run(w *W, idx int) {
 			// list / set equality and other container-typed operands in scalar positions
 			stratum = "containers-in-scalar-positions"
 			ops := []string{"=", "==", "eq", "!=", "ne", "+", ">", "between", "xor", "not", "in", "overlap", "and", "or", "if", "version", "date"}
-			leaves := []string{"(1 2)", "()", "(\"a\" \"b\")", "li0", "ls0", "seti", "sets", "1", "\"a\"", "true", "i0", "b0", "nilv", "(1)", "KIL", "KSL"}
+			leaves := []string{"(1 2)", "()", "(\"a\" \"b\")", "li0", "ls0", "seti", "sets", "1", "\"a\"", "true", "i0", "b0", "nilv", "(1)", "KIL", "KSL", c06BigIntList, c06BigStrList, "li0", "ls0"}
 			n := 1 + r.Intn(4)
 			parts := make([]string, n)
 			for i := range parts {
@@ -237,6 +237,20 @@ func c06Run(w *W, idx int) {
 		c06Input(w, r, stratum, src, infix, OptSet(r.Intn(16)), []int{0, 0, 0, 1, 2}[r.Intn(5)], r.Intn(3) != 0)
 	}
 }
+
+// list literals beyond the 100-element switch of in/overlap
+var c06BigIntList, c06BigStrList = func() (string, string) {
+	var a, b strings.Builder
+	a.WriteString("(")
+	b.WriteString("(")
+	for i := 0; i < 130; i++ {
+		fmt.Fprintf(&a, " %d", (i*37)%500-100)
+		fmt.Fprintf(&b, " \"s%d\"", (i*37)%500)
+	}
+	a.WriteString(")")
+	b.WriteString(")")
+	return a.String(), b.String()
+}()
 
 var hostileDefaults = []interface{}{nil, int64(1), int64(0), true, false, "s", "", []int64{1, 2}, []int64{}, []string{"a"}, []string{}, map[int64]struct{}{1: {}}, map[string]struct{}{"a": {}}}
 
